@@ -61,14 +61,24 @@ Fixpoint join (sep : str) (l : list str) : str :=
   | a :: l' => a ++ sep ++ join sep l'
   end.
 
-(* decimal digits of a natural number, most significant first (strconv.Itoa, %d) *)
-Fixpoint dec_aux (fuel : nat) (n : N) (acc : str) : str :=
-  match fuel with
-  | O => acc
-  | S f => let acc' := (48 + n mod 10) :: acc in
-           if n / 10 =? 0 then acc' else dec_aux f (n / 10) acc'
+(* decimal digits of a natural number, most significant first (strconv.Itoa, %d):
+   the standard library's binary-to-decimal conversion N.to_uint, digit by digit
+   (the same printer as Spec/OutputGrammar.v print_dec) *)
+Fixpoint uint_digits (u : Decimal.uint) : str :=
+  match u with
+  | Decimal.Nil => []
+  | Decimal.D0 u => 48 :: uint_digits u
+  | Decimal.D1 u => 49 :: uint_digits u
+  | Decimal.D2 u => 50 :: uint_digits u
+  | Decimal.D3 u => 51 :: uint_digits u
+  | Decimal.D4 u => 52 :: uint_digits u
+  | Decimal.D5 u => 53 :: uint_digits u
+  | Decimal.D6 u => 54 :: uint_digits u
+  | Decimal.D7 u => 55 :: uint_digits u
+  | Decimal.D8 u => 56 :: uint_digits u
+  | Decimal.D9 u => 57 :: uint_digits u
   end.
-Definition dec_of_N (n : N) : str := dec_aux (S (N.size_nat n)) n [].
+Definition dec_of_N (n : N) : str := uint_digits (N.to_uint n).
 Definition dec_of_Z (z : Z) : str :=
   match z with
   | Z0 => [48] (*0*)
